@@ -55,8 +55,7 @@ def strip_refs(e):
             return e
 
 
-REF_LIKE = {'deref', 'deref_mut', 'borrow', 'borrow_mut', 'as_ref', 'as_mut', 'clone', 'copied',
-            'cloned', 'as_mut_slice', 'as_slice', 'into'}
+REF_LIKE = {'deref', 'deref_mut', 'borrow', 'borrow_mut', 'as_ref', 'as_mut', 'as_mut_slice', 'as_slice'}
 REF_LIKE_STRICT = {'deref', 'deref_mut', 'borrow', 'as_ref', 'as_mut'}
 
 
